@@ -79,6 +79,42 @@ def capOk : Ev → Bool
 
 def noDayCap (evs : List Ev) : Bool := evs.all capOk
 
+/-- PROPOSED EDIT of `Mon.C07.tmoStep` (the only change is the `.ms` case of `Out.wait`): a millisecond wait at the
+24 h cap of `to_msec` is not a sleep whose timeout running out owes a callback — the earliest timer may be further
+away than the cap.  It is treated like an unbounded wait. -/
+def tmoStepC (m : TmoSt) (e : Ev) : Except String TmoSt :=
+  match e with
+  | .out (.wait _ (.ms v) ..) =>
+    if m.owed then .error "timed-out wake-up without progress: the wait returned on its timeout, nothing was dispatched, and the loop waits again"
+    else .ok { m with sleep := decide (v > 0) && decide (v < 86400000), zero := decide (v = 0) }
+  | e => tmoStep m e
+
+def tmoCapVerdict (evs : List Ev) : Option String :=
+  match runMon tmoStepC {} evs with
+  | .ok _ => none
+  | .error e => some e
+
+/-- on a record that is not a millisecond wait at the cap the two oracles agree -/
+theorem tmoStepC_eq (m : TmoSt) (e : Ev) (h : capOk e = true) : tmoStepC m e = tmoStep m e := by
+  unfold tmoStepC
+  split
+  · next v _ _ _ =>
+    simp only [capOk, decide_eq_true_eq] at h
+    simp [tmoStep, h]
+  · rfl
+
+theorem tmoFold_eq (evs : List Ev) : ∀ m : TmoSt, evs.all capOk = true →
+    evs.foldlM tmoStepC m = evs.foldlM tmoStep m := by
+  induction evs with
+  | nil => intro m _; rfl
+  | cons e r ih =>
+    intro m h
+    simp only [List.all_cons, Bool.and_eq_true] at h
+    rw [List.foldlM_cons, List.foldlM_cons, tmoStepC_eq m e h.1]
+    cases tmoStep m e with
+    | error x => rfl
+    | ok m1 => exact ih m1 h.2
+
 /-! ## the C04 monitor only dies on `iv_fatal` / fault, and only a clock reading changes its clock -/
 
 theorem mstep_alive {μ μ' : M} {e : Ev} (h : mstep μ e = .ok μ')
@@ -170,11 +206,12 @@ theorem good_internal {μ : M} {s : St} (g : Good μ s) (b : Block) (hpc : s.pc 
 
 theorem good_input {μ : M} {s s' : St} {i : Input} {outs : List Out} (g : Good μ s) (henv : envOk s i = true)
     (hin : input s i = some (s', outs)) :
-    s'.pc = .dead ∨ ∃ μ1, Good μ1 s' ∧ ((∀ t, i ≠ .time t) → s'.time = s.time) := by
+    (s'.pc = .dead ∧ s'.time = s.time) ∨ ∃ μ1, Good μ1 s' ∧ ((∀ t, i ≠ .time t) → s'.time = s.time) := by
   cases hbad : outs.any ProofsReach.isBad with
   | true =>
     left
     rw [ProofsReach.input_dead s i s' outs hin hbad]
+    exact ⟨rfl, rfl⟩
   | false =>
     right
     obtain ⟨μ1, hf, hr⟩ := input_ok g i henv hin
@@ -339,7 +376,7 @@ def OwedAt (s : St) (c : CSt) : Pc → Prop
 
 /-- after an empty zero-timeout poll, no callback since: no user code has run, and the loop cannot compute a zero
 timeout again (except once through the `ppoll → poll` fallback, which re-reads the clock) -/
-def ZAt (s : St) (m : TmoSt) : Pc → Prop
+def ZAt (fb : Bool) (s : St) (m : TmoSt) : Pc → Prop
   | .run .dispatchNext => ∃ rt rest, s.stack = .poll [] rt :: rest ∧ ZD s rt
   | .run (.mainTop rt) => ZD s rt
   | .needTime .forTimers => True
@@ -353,98 +390,106 @@ def ZAt (s : St) (m : TmoSt) : Pc → Prop
   | .run .exitCheck => s.tasks = [] ∧ Calm s
   | .run .prepWait => s.tasks = [] ∧ Calm s
   | .run (.flush abs km) => s.tasks = [] ∧ WArgs s abs km
-  | .needTime (.forWait abs _) => s.method = .poll ∧ m.zeros ≤ 1 ∧ abs.isSome = true
+  | .needTime (.forWait abs _) => fb = true ∧ s.method = .poll ∧ m.zeros ≤ 1 ∧ abs.isSome = true
   | .run (.wait abs km) =>
-    (s.tasks = [] ∧ WArgs s abs km) ∨ (s.method = .poll ∧ m.zeros ≤ 1 ∧ abs.isSome = true)
+    (s.tasks = [] ∧ WArgs s abs km) ∨ (fb = true ∧ s.method = .poll ∧ m.zeros ≤ 1 ∧ abs.isSome = true)
   | .waiting abs km =>
-    (s.tasks = [] ∧ WArgs s abs km ∧ m.zero = false) ∨ (s.method = .poll ∧ m.zeros ≤ 1 ∧ abs.isSome = true)
+    (s.tasks = [] ∧ WArgs s abs km ∧ m.zero = false) ∨
+    (fb = true ∧ s.method = .poll ∧ m.zeros ≤ 1 ∧ abs.isSome = true)
   | _ => False
 
-def ZInv (s : St) (m : TmoSt) : Prop := (m.zeros ≤ 1 ∨ s.method ≠ .ppoll) ∧ ZAt s m s.pc
+def ZInv (fb : Bool) (s : St) (m : TmoSt) : Prop := (m.zeros ≤ 1 ∨ s.method ≠ .ppoll) ∧ ZAt fb s m s.pc
 
-structure Inv (s : St) (c : CSt) (m : TmoSt) : Prop where
+/-- the bound on the oracle's counter: 2, and 1 when the `ppoll → poll` fallback is excluded (`fb = false`) -/
+def Zb (fb : Bool) (n : Nat) : Prop := n ≤ 2 ∧ (fb = false → n ≤ 1)
+
+theorem Zb.zero {fb : Bool} : Zb fb 0 := ⟨by omega, fun _ => by omega⟩
+
+structure Inv (fb : Bool) (s : St) (c : CSt) (m : TmoSt) : Prop where
   clock : c.last = ns s.time
-  zle : m.zeros ≤ 2
+  zle : Zb fb m.zeros
   absR : ∀ abs km, waitArgs s.pc = some (abs, km) → ∀ a, abs = some a →
     a = ⟨0, 0⟩ ∨ ∃ r, onHeap s.heap r ∧ expOf s.heap r = a
   link : ∀ abs km, s.pc = .waiting abs km →
     (m.sleep = true → abs.isSome = true ∧ ∃ d, c.pend = some d ∧ Due s.heap d) ∧
     (m.zero = true → abs.isSome = true)
   owed : m.owed = true → OwedAt s c s.pc
-  zs : m.owed = false → 1 ≤ m.zeros → ZInv s m
+  zs : m.owed = false → 1 ≤ m.zeros → ZInv fb s m
 
-theorem inv_init (mt : Method) (n : Nat) (a b : Bool) : Inv (St.init mt n a b) {} {} := by
-  refine ⟨rfl, by decide, ?_, ?_, ?_, ?_⟩
+theorem inv_init {fb : Bool} (mt : Method) (n : Nat) (a b : Bool) : Inv fb (St.init mt n a b) {} {} := by
+  refine ⟨rfl, Zb.zero, ?_, ?_, ?_, ?_⟩
   · intro abs km h; simp [St.init, waitArgs] at h
   · intro abs km h; simp [St.init] at h
   · intro h; cases h
   · intro _ h; simp at h
 
 /-- a step after which neither phase is active -/
-theorem Inv.normal {s' : St} {c' : CSt} {m' : TmoSt} (hw : waitArgs s'.pc = none) (hc : c'.last = ns s'.time)
-    (h0 : m'.zeros = 0) (hf : m'.owed = false) : Inv s' c' m' := by
-  refine ⟨hc, by omega, ?_, ?_, ?_, ?_⟩
+theorem Inv.normal {fb : Bool} {s' : St} {c' : CSt} {m' : TmoSt} (hw : waitArgs s'.pc = none) (hc : c'.last = ns s'.time)
+    (h0 : m'.zeros = 0) (hf : m'.owed = false) : Inv fb s' c' m' := by
+  refine ⟨hc, by rw [h0]; exact Zb.zero, ?_, ?_, ?_, ?_⟩
   · intro abs km h; rw [hw] at h; cases h
   · intro abs km h; rw [h] at hw; simp [waitArgs] at hw
   · intro h; rw [hf] at h; cases h
   · intro _ h; omega
 
 /-- a silent step that stays outside the wait arguments -/
-theorem Inv.quiet {s s' : St} {c : CSt} {m : TmoSt} (I : Inv s c m) (ht : s'.time = s.time)
+theorem Inv.quiet {fb : Bool} {s s' : St} {c : CSt} {m : TmoSt} (I : Inv fb s c m) (ht : s'.time = s.time)
     (hw : waitArgs s'.pc = none)
     (ho : m.owed = true → OwedAt s c s.pc → OwedAt s' c s'.pc)
-    (hz : m.owed = false → 1 ≤ m.zeros → ZInv s m → ZInv s' m) : Inv s' c m := by
+    (hz : m.owed = false → 1 ≤ m.zeros → ZInv fb s m → ZInv fb s' m) : Inv fb s' c m := by
   refine ⟨by rw [ht]; exact I.clock, I.zle, ?_, ?_, fun h => ho h (I.owed h), fun h1 h2 => hz h1 h2 (I.zs h1 h2)⟩
   · intro abs km h; rw [hw] at h; cases h
   · intro abs km h; rw [h] at hw; simp [waitArgs] at hw
 
 /-! ## what a step owes: the oracle accepts its records and the invariant holds afterwards -/
 
-def Post (s' : St) (c : CSt) (m : TmoSt) (evs : List Ev) : Prop :=
+def Post (fb : Bool) (s' : St) (c : CSt) (m : TmoSt) (evs : List Ev) : Prop :=
   ∀ c', evs.foldlM ctrStep c = .ok c' →
-    ∃ m', evs.foldlM tmoStep m = .ok m' ∧ m'.zeros ≤ 2 ∧ (s'.pc = .dead ∨ Inv s' c' m')
+    ∃ m', evs.foldlM tmoStepC m = .ok m' ∧ Zb fb m'.zeros ∧ (s'.pc = .dead ∨ Inv fb s' c' m')
 
-theorem Post.nil {s' : St} {c : CSt} {m : TmoSt} (h : s'.pc = .dead ∨ Inv s' c m) (hz : m.zeros ≤ 2) : Post s' c m [] := by
+variable {fb : Bool}
+
+theorem Post.nil {s' : St} {c : CSt} {m : TmoSt} (h : s'.pc = .dead ∨ Inv fb s' c m) (hz : Zb fb m.zeros) : Post fb s' c m [] := by
   intro c' hc
   cases hc
   exact ⟨m, rfl, hz, h⟩
 
-theorem Post.inv {s' : St} {c : CSt} {m : TmoSt} (h : Inv s' c m) : Post s' c m [] :=
+theorem Post.inv {s' : St} {c : CSt} {m : TmoSt} (h : Inv fb s' c m) : Post fb s' c m [] :=
   Post.nil (Or.inr h) h.zle
 
 theorem fold1 {σ : Type} (f : σ → Ev → Except String σ) (a : σ) (e : Ev) : [e].foldlM f a = f a e := by
   simp [List.foldlM_cons]
 
-theorem Post.dead {s' : St} {c : CSt} {m : TmoSt} {o : Out} (hz : m.zeros ≤ 2) (hd : s'.pc = .dead)
-    (ho : ProofsReach.isBad o = true) : Post s' c m [Ev.out o] := by
+theorem Post.dead {s' : St} {c : CSt} {m : TmoSt} {o : Out} (hz : Zb fb m.zeros) (hd : s'.pc = .dead)
+    (ho : ProofsReach.isBad o = true) : Post fb s' c m [Ev.out o] := by
   intro c' hc
   refine ⟨m, ?_, hz, Or.inl hd⟩
   rw [fold1]
   cases o <;> simp [ProofsReach.isBad] at ho <;> rfl
 
 theorem Post.cb {s' : St} {c : CSt} {m : TmoSt} (k : Cb) (hu : s'.pc = .user) (hc : c.last = ns s'.time) :
-    Post s' c m [Ev.out (.cb k)] := by
+    Post fb s' c m [Ev.out (.cb k)] := by
   intro c' hc'
   rw [fold1] at hc'
   cases hc'
-  refine ⟨{ m with owed := false, zeros := 0 }, by rw [fold1]; rfl, by simp, Or.inr ?_⟩
+  refine ⟨{ m with owed := false, zeros := 0 }, by rw [fold1]; rfl, Zb.zero, Or.inr ?_⟩
   exact Inv.normal (by rw [hu]; rfl) hc rfl rfl
 
 theorem Post.mainRet {s' : St} {c : CSt} {m : TmoSt} (hu : s'.pc = .user) (hc : c.last = ns s'.time) :
-    Post s' c m [Ev.out .mainRet] := by
+    Post fb s' c m [Ev.out .mainRet] := by
   intro c' hc'
   rw [fold1] at hc'
   cases hc'
-  refine ⟨{}, by rw [fold1]; rfl, by simp, Or.inr ?_⟩
+  refine ⟨{}, by rw [fold1]; rfl, Zb.zero, Or.inr ?_⟩
   exact Inv.normal (by rw [hu]; rfl) hc rfl rfl
 
 
 /-- a silent step from program point `p` to program point `q` outside the wait arguments -/
-theorem Inv.step {s s' : St} {c : CSt} {m : TmoSt} (I : Inv s c m) {p q : Pc} (hp : s.pc = p) (hq : s'.pc = q)
+theorem Inv.step {s s' : St} {c : CSt} {m : TmoSt} (I : Inv fb s c m) {p q : Pc} (hp : s.pc = p) (hq : s'.pc = q)
     (ht : s'.time = s.time) (hw : waitArgs q = none)
     (ho : m.owed = true → OwedAt s c p → OwedAt s' c q)
-    (hz : m.owed = false → 1 ≤ m.zeros → (m.zeros ≤ 1 ∨ s.method ≠ .ppoll) → ZAt s m p →
-      (m.zeros ≤ 1 ∨ s'.method ≠ .ppoll) ∧ ZAt s' m q) : Inv s' c m := by
+    (hz : m.owed = false → 1 ≤ m.zeros → (m.zeros ≤ 1 ∨ s.method ≠ .ppoll) → ZAt fb s m p →
+      (m.zeros ≤ 1 ∨ s'.method ≠ .ppoll) ∧ ZAt fb s' m q) : Inv fb s' c m := by
   refine I.quiet ht (by rw [hq]; exact hw) ?_ ?_
   · intro h1 h2; rw [hq]; rw [hp] at h2; exact ho h1 h2
   · intro h1 h2 h3
@@ -453,8 +498,8 @@ theorem Inv.step {s s' : St} {c : CSt} {m : TmoSt} (I : Inv s c m) {p q : Pc} (h
     exact hz h1 h2 h3.1 h3.2
 
 /-- a state outside both phases (the phases exclude program point `p`) -/
-theorem Inv.idle {s : St} {c : CSt} {m : TmoSt} (I : Inv s c m) {p : Pc} (hp : s.pc = p)
-    (h1 : OwedAt s c p → False) (h2 : ZAt s m p → False) : m.owed = false ∧ m.zeros = 0 := by
+theorem Inv.idle {s : St} {c : CSt} {m : TmoSt} (I : Inv fb s c m) {p : Pc} (hp : s.pc = p)
+    (h1 : OwedAt s c p → False) (h2 : ZAt fb s m p → False) : m.owed = false ∧ m.zeros = 0 := by
   have ho : m.owed = false := by
     cases h : m.owed with
     | false => rfl
@@ -470,9 +515,9 @@ theorem Inv.idle {s : St} {c : CSt} {m : TmoSt} (I : Inv s c m) {p : Pc} (hp : s
 
 /-! ## internal steps -/
 
-theorem blk_mainTop {μ : M} {s : St} {c : CSt} {m : TmoSt} (g : Good μ s) (I : Inv s c m) (rt : Bool)
+theorem blk_mainTop {μ : M} {s : St} {c : CSt} {m : TmoSt} (g : Good μ s) (I : Inv fb s c m) (rt : Bool)
     (hpc : s.pc = .run (.mainTop rt)) :
-    Post (internal s (.mainTop rt)).1 c m ((internal s (.mainTop rt)).2.map Ev.out) := by
+    Post fb (internal s (.mainTop rt)).1 c m ((internal s (.mainTop rt)).2.map Ev.out) := by
   obtain ⟨b0, gb⟩ := g
   simp only [internal, goto]
   split
@@ -511,9 +556,9 @@ theorem blk_mainTop {μ : M} {s : St} {c : CSt} {m : TmoSt} (g : Good μ s) (I :
 
 theorem le_of_ns {a b : TS} (ha : Nm a) (hb : Nm b) (h : ns a ≤ ns b) : a.le b := (le_iff_ns ha hb).2 h
 
-theorem blk_collect {μ : M} {s : St} {c : CSt} {m : TmoSt} (g : Good μ s) (I : Inv s c m)
+theorem blk_collect {μ : M} {s : St} {c : CSt} {m : TmoSt} (g : Good μ s) (I : Inv fb s c m)
     (hpc : s.pc = .run .collect) :
-    Post (internal s .collect).1 c m ((internal s .collect).2.map Ev.out) := by
+    Post fb (internal s .collect).1 c m ((internal s .collect).2.map Ev.out) := by
   obtain ⟨b0, gb⟩ := g
   obtain ⟨h', batch, e, hinv', _, _, hmem, hon, _, hexp, _⟩ := Ivy.Heap.Proofs.collect_sorted s.heap s.time gb.hinv
   simp only [internal, e, goto]
@@ -530,9 +575,9 @@ theorem blk_collect {μ : M} {s : St} {c : CSt} {m : TmoSt} (g : Good μ s) (I :
     rw [hexp t]
     exact this.2
 
-theorem blk_popTimer {μ : M} {s : St} {c : CSt} {m : TmoSt} (g : Good μ s) (I : Inv s c m)
+theorem blk_popTimer {μ : M} {s : St} {c : CSt} {m : TmoSt} (g : Good μ s) (I : Inv fb s c m)
     (hpc : s.pc = .run .popTimer) :
-    Post (internal s .popTimer).1 c m ((internal s .popTimer).2.map Ev.out) := by
+    Post fb (internal s .popTimer).1 c m ((internal s .popTimer).2.map Ev.out) := by
   simp only [internal, goto]
   split
   · next rest hst =>
@@ -550,18 +595,18 @@ theorem blk_popTimer {μ : M} {s : St} {c : CSt} {m : TmoSt} (g : Good μ s) (I 
     · exact Post.cb _ rfl I.clock
   · exact Post.dead I.zle rfl rfl
 
-theorem blk_startTasks {μ : M} {s : St} {c : CSt} {m : TmoSt} (g : Good μ s) (I : Inv s c m)
+theorem blk_startTasks {μ : M} {s : St} {c : CSt} {m : TmoSt} (g : Good μ s) (I : Inv fb s c m)
     (hpc : s.pc = .run .startTasks) :
-    Post (internal s .startTasks).1 c m ((internal s .startTasks).2.map Ev.out) := by
+    Post fb (internal s .startTasks).1 c m ((internal s .startTasks).2.map Ev.out) := by
   simp only [internal, goto]
   refine Post.inv (I.step hpc rfl rfl rfl (fun _ h => ?_) (fun _ _ hm h => ⟨hm, ?_⟩))
   · simp only [OwedAt] at h
   · simp only [ZAt] at h ⊢
     exact ⟨⟨_, _, rfl⟩, trivial, h⟩
 
-theorem blk_popTask {μ : M} {s : St} {c : CSt} {m : TmoSt} (g : Good μ s) (I : Inv s c m)
+theorem blk_popTask {μ : M} {s : St} {c : CSt} {m : TmoSt} (g : Good μ s) (I : Inv fb s c m)
     (hpc : s.pc = .run .popTask) :
-    Post (internal s .popTask).1 c m ((internal s .popTask).2.map Ev.out) := by
+    Post fb (internal s .popTask).1 c m ((internal s .popTask).2.map Ev.out) := by
   simp only [internal, goto]
   split
   · next rest hst =>
@@ -580,9 +625,9 @@ theorem blk_popTask {μ : M} {s : St} {c : CSt} {m : TmoSt} (g : Good μ s) (I :
       · exact Post.cb _ rfl I.clock
   · exact Post.dead I.zle rfl rfl
 
-theorem blk_runEvents {μ : M} {s : St} {c : CSt} {m : TmoSt} (g : Good μ s) (I : Inv s c m)
+theorem blk_runEvents {μ : M} {s : St} {c : CSt} {m : TmoSt} (g : Good μ s) (I : Inv fb s c m)
     (hpc : s.pc = .run .runEvents) :
-    Post (internal s .runEvents).1 c m ((internal s .runEvents).2.map Ev.out) := by
+    Post fb (internal s .runEvents).1 c m ((internal s .runEvents).2.map Ev.out) := by
   simp only [internal, goto]
   split
   · refine Post.inv (I.step hpc rfl rfl rfl (fun _ h => ?_) (fun _ _ hm h => ⟨hm, ?_⟩))
@@ -597,9 +642,9 @@ theorem blk_runEvents {μ : M} {s : St} {c : CSt} {m : TmoSt} (g : Good μ s) (I
       | nil => rw [hp] at hne; simp at hne
       | cons e r => exact ⟨e, r, _, rfl⟩
 
-theorem blk_popEvent {μ : M} {s : St} {c : CSt} {m : TmoSt} (g : Good μ s) (I : Inv s c m)
+theorem blk_popEvent {μ : M} {s : St} {c : CSt} {m : TmoSt} (g : Good μ s) (I : Inv fb s c m)
     (hpc : s.pc = .run .popEvent) :
-    Post (internal s .popEvent).1 c m ((internal s .popEvent).2.map Ev.out) := by
+    Post fb (internal s .popEvent).1 c m ((internal s .popEvent).2.map Ev.out) := by
   simp only [internal, goto]
   split
   · next rest hst =>
@@ -613,9 +658,9 @@ theorem blk_popEvent {μ : M} {s : St} {c : CSt} {m : TmoSt} (g : Good μ s) (I 
     · exact Post.cb _ rfl I.clock
   · exact Post.dead I.zle rfl rfl
 
-theorem blk_resume {μ : M} {s : St} {c : CSt} {m : TmoSt} (g : Good μ s) (I : Inv s c m)
+theorem blk_resume {μ : M} {s : St} {c : CSt} {m : TmoSt} (g : Good μ s) (I : Inv fb s c m)
     (hpc : s.pc = .run .resume) :
-    Post (internal s .resume).1 c m ((internal s .resume).2.map Ev.out) := by
+    Post fb (internal s .resume).1 c m ((internal s .resume).2.map Ev.out) := by
   simp only [internal, goto]
   split
   · refine Post.inv (I.step hpc rfl rfl rfl (fun _ h => ?_) (fun _ _ hm h => ⟨hm, ?_⟩))
@@ -631,9 +676,9 @@ theorem blk_resume {μ : M} {s : St} {c : CSt} {m : TmoSt} (g : Good μ s) (I : 
           obtain ⟨⟨b, rest', h⟩, _⟩ := h
           rw [hst] at h; cases h)
 
-theorem blk_exitCheck {μ : M} {s : St} {c : CSt} {m : TmoSt} (g : Good μ s) (I : Inv s c m)
+theorem blk_exitCheck {μ : M} {s : St} {c : CSt} {m : TmoSt} (g : Good μ s) (I : Inv fb s c m)
     (hpc : s.pc = .run .exitCheck) :
-    Post (internal s .exitCheck).1 c m ((internal s .exitCheck).2.map Ev.out) := by
+    Post fb (internal s .exitCheck).1 c m ((internal s .exitCheck).2.map Ev.out) := by
   simp only [internal, goto]
   split
   · exact Post.mainRet rfl I.clock
@@ -642,9 +687,9 @@ theorem blk_exitCheck {μ : M} {s : St} {c : CSt} {m : TmoSt} (g : Good μ s) (I
     · simp only [ZAt] at h ⊢
       exact h
 
-theorem blk_dispatchNext {μ : M} {s : St} {c : CSt} {m : TmoSt} (g : Good μ s) (I : Inv s c m)
+theorem blk_dispatchNext {μ : M} {s : St} {c : CSt} {m : TmoSt} (g : Good μ s) (I : Inv fb s c m)
     (hpc : s.pc = .run .dispatchNext) :
-    Post (internal s .dispatchNext).1 c m ((internal s .dispatchNext).2.map Ev.out) := by
+    Post fb (internal s .dispatchNext).1 c m ((internal s .dispatchNext).2.map Ev.out) := by
   simp only [internal, goto]
   split
   · next rt rest hst =>
@@ -668,11 +713,11 @@ theorem blk_dispatchNext {μ : M} {s : St} {c : CSt} {m : TmoSt} (g : Good μ s)
   · exact Post.dead I.zle rfl rfl
 
 
-theorem blk_fdStage {μ : M} {s : St} {c : CSt} {m : TmoSt} (g : Good μ s) (I : Inv s c m)
+theorem blk_fdStage {μ : M} {s : St} {c : CSt} {m : TmoSt} (g : Good μ s) (I : Inv fb s c m)
     (hpc : s.pc = .run .fdStage) :
-    Post (internal s .fdStage).1 c m ((internal s .fdStage).2.map Ev.out) := by
+    Post fb (internal s .fdStage).1 c m ((internal s .fdStage).2.map Ev.out) := by
   obtain ⟨hf, h0⟩ := I.idle hpc (by simp [OwedAt]) (by simp [ZAt])
-  have key : ∀ s' : St, s'.time = s.time → waitArgs s'.pc = none → Inv s' c m :=
+  have key : ∀ s' : St, s'.time = s.time → waitArgs s'.pc = none → Inv fb s' c m :=
     fun s' h1 h2 => Inv.normal h2 (by rw [h1]; exact I.clock) h0 hf
   simp only [internal, goto, setTop]
   repeat' split
@@ -709,13 +754,13 @@ theorem tc_true (s : St) (abs : Option TS) (h : (timeoutCheck s abs).2 = true) :
 
 
 /-- a silent step into (or inside) the program points that carry wait arguments, not the wait itself -/
-theorem Inv.stepW {s s' : St} {c : CSt} {m : TmoSt} (I : Inv s c m) {p q : Pc} {abs : Option TS} {km : Bool}
+theorem Inv.stepW {s s' : St} {c : CSt} {m : TmoSt} (I : Inv fb s c m) {p q : Pc} {abs : Option TS} {km : Bool}
     (hp : s.pc = p) (hq : s'.pc = q) (hqw : waitArgs q = some (abs, km)) (hnw : ∀ a k, q ≠ .waiting a k)
     (ht : s'.time = s.time)
     (hA : ∀ a, abs = some a → a = ⟨0, 0⟩ ∨ ∃ r, onHeap s'.heap r ∧ expOf s'.heap r = a)
     (ho : m.owed = true → OwedAt s c p → OwedAt s' c q)
-    (hz : m.owed = false → 1 ≤ m.zeros → (m.zeros ≤ 1 ∨ s.method ≠ .ppoll) → ZAt s m p →
-      (m.zeros ≤ 1 ∨ s'.method ≠ .ppoll) ∧ ZAt s' m q) : Inv s' c m := by
+    (hz : m.owed = false → 1 ≤ m.zeros → (m.zeros ≤ 1 ∨ s.method ≠ .ppoll) → ZAt fb s m p →
+      (m.zeros ≤ 1 ∨ s'.method ≠ .ppoll) ∧ ZAt fb s' m q) : Inv fb s' c m := by
   refine ⟨by rw [ht]; exact I.clock, I.zle, ?_, ?_, ?_, ?_⟩
   · intro abs' km' h a ha
     rw [hq, hqw] at h
@@ -732,9 +777,9 @@ theorem Inv.stepW {s s' : St} {c : CSt} {m : TmoSt} (I : Inv s c m) {p q : Pc} {
 theorem soonest_zero {h : Store} (hn : h.num = 0) : soonest h = none := by
   unfold soonest; rw [if_pos hn]
 
-theorem blk_prepWait {μ : M} {s : St} {c : CSt} {m : TmoSt} (g : Good μ s) (I : Inv s c m)
+theorem blk_prepWait {μ : M} {s : St} {c : CSt} {m : TmoSt} (g : Good μ s) (I : Inv fb s c m)
     (hpc : s.pc = .run .prepWait) :
-    Post (internal s .prepWait).1 c m ((internal s .prepWait).2.map Ev.out) := by
+    Post fb (internal s .prepWait).1 c m ((internal s .prepWait).2.map Ev.out) := by
   obtain ⟨b0, gb⟩ := g
   -- the deadline handed on is the head of the heap, or zero
   have hA : ∀ a, (if (!s.tasks.isEmpty) = true then some (⟨0, 0⟩ : TS) else soonest s.heap) = some a →
@@ -831,9 +876,9 @@ theorem WArgs.same {s s' : St} {abs : Option TS} {km : Bool} (h : Same s s') (w 
   · exact Or.inl ⟨a, b, k.same h⟩
   · exact Or.inr w
 
-theorem blk_flush {μ : M} {s : St} {c : CSt} {m : TmoSt} (g : Good μ s) (I : Inv s c m)
+theorem blk_flush {μ : M} {s : St} {c : CSt} {m : TmoSt} (g : Good μ s) (I : Inv fb s c m)
     (abs : Option TS) (km : Bool) (hpc : s.pc = .run (.flush abs km)) :
-    Post (internal s (.flush abs km)).1 c m ((internal s (.flush abs km)).2.map Ev.out) := by
+    Post fb (internal s (.flush abs km)).1 c m ((internal s (.flush abs km)).2.map Ev.out) := by
   have hS : Same s (if s.method.isEpoll = true then List.foldl epollFlushOne s s.notify else s) := by
     split
     · exact same_foldl_flush _ _
@@ -871,7 +916,7 @@ theorem blk_flush {μ : M} {s : St} {c : CSt} {m : TmoSt} (g : Good μ s) (I : I
 def toPos : Timeout → Bool
   | .inf => false
   | .ns v => decide (v > 0)
-  | .ms v => decide (v > 0)
+  | .ms v => decide (v > 0) && decide (v < 86400000)
 
 def toZero : Timeout → Bool
   | .inf => false
@@ -880,12 +925,11 @@ def toZero : Timeout → Bool
 
 theorem tmo_wait {m : TmoSt} (hm : m.owed = false) (p : String) (to : Timeout) (i : List (FdId × Bands))
     (k : Option (Option TS)) (kk : Option Bool) :
-    tmoStep m (.out (.wait p to i k kk)) = .ok { m with sleep := toPos to, zero := toZero to } := by
-  cases to <;> simp [tmoStep, hm, toPos, toZero]
+    tmoStepC m (.out (.wait p to i k kk)) = .ok { m with sleep := toPos to, zero := toZero to } := by
+  cases to <;> simp [tmoStepC, tmoStep, hm, toPos, toZero]
 
 /-- what the timeout of a wait says about its deadline `a` -/
-theorem timeout_facts {s : St} {a : TS} (hn : NN s.time) (ha : Nm a)
-    (hcap : ∀ v, timeoutOf s (some a) = .ms v → v < 86400000) :
+theorem timeout_facts {s : St} {a : TS} (hn : NN s.time) (ha : Nm a) :
     (toPos (timeoutOf s (some a)) = true →
       a ≠ ⟨0, 0⟩ ∧ ∃ d, toDeadline (ns s.time) (timeoutOf s (some a)) = some d ∧ ns a ≤ d) ∧
     (a.gt s.time = true → toZero (timeoutOf s (some a)) = false) := by
@@ -898,18 +942,16 @@ theorem timeout_facts {s : St} {a : TS} (hn : NN s.time) (ha : Nm a)
     · have := (pos_of_gt hn.nm ha hg).1
       omega
   · rw [e]
-    have hc := hcap _ e
-    simp only [toPos, toZero, toDeadline, decide_eq_true_eq, decide_eq_false_iff_not]
+    simp only [toPos, toZero, toDeadline, Bool.and_eq_true, decide_eq_true_eq, decide_eq_false_iff_not]
     refine ⟨fun hv => ?_, fun hg => ?_⟩
-    · obtain ⟨h1, h2⟩ := ms_deadline hn ha hv hc
-      exact ⟨h2, _, by rw [if_pos hv], h1⟩
+    · obtain ⟨h1, h2⟩ := ms_deadline hn ha hv.1 hv.2
+      exact ⟨h2, _, by rw [if_pos hv.1], h1⟩
     · have := (pos_of_gt hn.nm ha hg).2
       omega
 
-theorem blk_wait {μ : M} {s : St} {c : CSt} {m : TmoSt} (g : Good μ s) (I : Inv s c m)
-    (abs : Option TS) (km : Bool) (hpc : s.pc = .run (.wait abs km))
-    (hcap : ((internal s (.wait abs km)).2.map Ev.out).all capOk = true) :
-    Post (internal s (.wait abs km)).1 c m ((internal s (.wait abs km)).2.map Ev.out) := by
+theorem blk_wait {μ : M} {s : St} {c : CSt} {m : TmoSt} (g : Good μ s) (I : Inv fb s c m)
+    (abs : Option TS) (km : Bool) (hpc : s.pc = .run (.wait abs km)) :
+    Post fb (internal s (.wait abs km)).1 c m ((internal s (.wait abs km)).2.map Ev.out) := by
   obtain ⟨b0, gb⟩ := g
   have hf : m.owed = false := by
     cases h : m.owed with
@@ -918,7 +960,7 @@ theorem blk_wait {μ : M} {s : St} {c : CSt} {m : TmoSt} (g : Good μ s) (I : In
       have := I.owed h
       rw [hpc] at this
       simp [OwedAt] at this
-  simp only [internal, List.map_cons, List.map_nil, List.all_cons, List.all_nil, Bool.and_true, capOk] at hcap ⊢
+  simp only [internal, List.map_cons, List.map_nil]
   intro c' hc'
   rw [fold1] at hc'
   simp only [ctrStep, Except.ok.injEq] at hc'
@@ -936,9 +978,7 @@ theorem blk_wait {μ : M} {s : St} {c : CSt} {m : TmoSt} (g : Good μ s) (I : In
     unfold WaitOk at hw
     split at hw
     · cases hw.1
-    · refine timeout_facts gb.timeNN hw.2.1 (fun v hv => ?_)
-      rw [hv] at hcap
-      simpa using hcap
+    · exact timeout_facts gb.timeNN hw.2.1
   refine ⟨I.clock, I.zle, ?_, ?_, ?_, ?_⟩
   · intro abs' km' h a ha
     simp only [waitArgs, Option.some.injEq, Prod.mk.injEq] at h
@@ -974,9 +1014,9 @@ theorem blk_wait {μ : M} {s : St} {c : CSt} {m : TmoSt} (g : Good μ s) (I : In
     · exact Or.inr h2
 
 
-theorem internal_post {μ : M} {s : St} {c : CSt} {m : TmoSt} (g : Good μ s) (I : Inv s c m) (b : Block)
-    (hpc : s.pc = .run b) (hcap : ((internal s b).2.map Ev.out).all capOk = true) :
-    Post (internal s b).1 c m ((internal s b).2.map Ev.out) := by
+theorem internal_post {μ : M} {s : St} {c : CSt} {m : TmoSt} (g : Good μ s) (I : Inv fb s c m) (b : Block)
+    (hpc : s.pc = .run b) :
+    Post fb (internal s b).1 c m ((internal s b).2.map Ev.out) := by
   cases b with
   | mainTop rt => exact blk_mainTop g I rt hpc
   | collect => exact blk_collect g I hpc
@@ -989,7 +1029,7 @@ theorem internal_post {μ : M} {s : St} {c : CSt} {m : TmoSt} (g : Good μ s) (I
   | exitCheck => exact blk_exitCheck g I hpc
   | prepWait => exact blk_prepWait g I hpc
   | flush abs km => exact blk_flush g I abs km hpc
-  | wait abs km => exact blk_wait g I abs km hpc hcap
+  | wait abs km => exact blk_wait g I abs km hpc
   | dispatchNext => exact blk_dispatchNext g I hpc
   | fdStage => exact blk_fdStage g I hpc
 
@@ -1003,20 +1043,20 @@ inductive Shape (s' : St) : List Out → Prop
   | cb (k : Cb) : s'.pc = .user → Shape s' [Out.cb k]
 
 theorem Post.idle {s' : St} {c : CSt} {m : TmoSt} {i : Input} {outs : List Out} (hf : m.owed = false)
-    (h0 : m.zeros = 0) (hmi : tmoStep m (.inp i) = .ok m) (hci : ctrStep c (.inp i) = .ok c)
-    (hc : c.last = ns s'.time) (hsh : Shape s' outs) : Post s' c m (Ev.inp i :: outs.map Ev.out) := by
+    (h0 : m.zeros = 0) (hmi : tmoStepC m (.inp i) = .ok m) (hci : ctrStep c (.inp i) = .ok c)
+    (hc : c.last = ns s'.time) (hsh : Shape s' outs) : Post fb s' c m (Ev.inp i :: outs.map Ev.out) := by
   intro c' hc'
   rw [List.foldlM_cons, hci] at hc'
   change (outs.map Ev.out).foldlM ctrStep c = .ok c' at hc'
   rw [List.foldlM_cons, hmi]
-  change ∃ m', (outs.map Ev.out).foldlM tmoStep m = .ok m' ∧ _
+  change ∃ m', (outs.map Ev.out).foldlM tmoStepC m = .ok m' ∧ _
   cases hsh with
-  | dead o hd hb => exact Post.dead (by omega) hd hb c' hc'
-  | nil hw => cases hc'; exact ⟨m, rfl, by omega, Or.inr (Inv.normal hw hc h0 hf)⟩
+  | dead o hd hb => exact Post.dead (by rw [h0]; exact Zb.zero) hd hb c' hc'
+  | nil hw => cases hc'; exact ⟨m, rfl, by rw [h0]; exact Zb.zero, Or.inr (Inv.normal hw hc h0 hf)⟩
   | ret v hw =>
     rw [List.map_cons, List.map_nil, fold1] at hc' ⊢
     cases hc'
-    exact ⟨m, rfl, by omega, Or.inr (Inv.normal hw hc h0 hf)⟩
+    exact ⟨m, rfl, by rw [h0]; exact Zb.zero, Or.inr (Inv.normal hw hc h0 hf)⟩
   | cb k hu => exact Post.cb k hu hc c' hc'
 
 theorem api_shape (s : St) (a : Api) (hpc : s.pc = .user) : Shape (api s a).1 (api s a).2 := by
@@ -1060,9 +1100,9 @@ theorem api_shape (s : St) (a : Api) (hpc : s.pc = .user) : Shape (api s a).1 (a
 
 /-! ### the clock is read -/
 
-theorem inp_time {μ : M} {s : St} {c : CSt} {m : TmoSt} (g : Good μ s) (I : Inv s c m) (k : TimeK) (t : TS)
+theorem inp_time {μ : M} {s : St} {c : CSt} {m : TmoSt} (g : Good μ s) (I : Inv fb s c m) (k : TimeK) (t : TS)
     (hpc : s.pc = .needTime k) :
-    Post (afterTime s t k).1 c m (Ev.inp (.time t) :: (afterTime s t k).2.map Ev.out) := by
+    Post fb (afterTime s t k).1 c m (Ev.inp (.time t) :: (afterTime s t k).2.map Ev.out) := by
   have houts : (afterTime s t k).2 = [] := by cases k <;> rfl
   have htime : (afterTime s t k).1.time = t := by cases k <;> rfl
   rw [houts]
@@ -1095,7 +1135,7 @@ theorem inp_time {μ : M} {s : St} {c : CSt} {m : TmoSt} (g : Good μ s) (I : In
       have := I.zs hf h1
       unfold ZInv at this ⊢
       refine ⟨this.1, ?_⟩
-      show ZAt _ m (.run .collect)
+      show ZAt fb _ m (.run .collect)
       simp only [ZAt]
       rfl
   | forWait abs km =>
@@ -1114,7 +1154,7 @@ theorem inp_time {μ : M} {s : St} {c : CSt} {m : TmoSt} (g : Good μ s) (I : In
       unfold ZInv at this ⊢
       rw [hpc] at this
       refine ⟨this.1, ?_⟩
-      show ZAt _ m (.run (.wait abs km))
+      show ZAt fb _ m (.run (.wait abs km))
       simp only [ZAt] at this ⊢
       exact Or.inr this.2
   | forValidate =>
@@ -1169,5 +1209,411 @@ theorem afterWait_events_shape (s : St) (abs : Option TS) (km : Bool) (l : List 
   simp only [goto]
   generalize List.foldl Ivy.L1.ProofsC02.wfold _ l = r
   by_cases hr : r.2.2.2 = true <;> simp [hr, waitArgs]
+
+
+theorem not_owed_waiting {s : St} {c : CSt} {m : TmoSt} (I : Inv fb s c m) {abs : Option TS} {km : Bool}
+    (hpc : s.pc = .waiting abs km) : m.owed = false := by
+  cases h : m.owed with
+  | false => rfl
+  | true =>
+    have := I.owed h
+    rw [hpc] at this
+    simp [OwedAt] at this
+
+theorem zat_waiting {s : St} {c : CSt} {m : TmoSt} (I : Inv fb s c m) {abs : Option TS} {km : Bool}
+    (hpc : s.pc = .waiting abs km) (h1 : 1 ≤ m.zeros) :
+    (m.zeros ≤ 1 ∨ s.method ≠ .ppoll) ∧
+    ((s.tasks = [] ∧ WArgs s abs km ∧ m.zero = false) ∨
+      (fb = true ∧ s.method = .poll ∧ m.zeros ≤ 1 ∧ abs.isSome = true)) := by
+  have := I.zs (not_owed_waiting I hpc) h1
+  unfold ZInv at this
+  rw [hpc] at this
+  simpa only [ZAt] using this
+
+/-- `EINTR`, or an empty result of a wait that was neither a sleep nor a zero-timeout poll: the oracle does not move -/
+theorem wake_plain {s : St} {c c' : CSt} {m : TmoSt} (I : Inv fb s c m) {abs : Option TS} {km : Bool}
+    (hpc : s.pc = .waiting abs km) (hc : c'.last = c.last) : Inv fb (wake s abs km) c' m := by
+  have hf := not_owed_waiting I hpc
+  refine ⟨by rw [hc]; exact I.clock, I.zle, ?_, ?_, ?_, ?_⟩
+  · intro a k h; simp [wake, waitArgs] at h
+  · intro a k h; simp [wake] at h
+  · intro h; rw [hf] at h; cases h
+  · intro _ h1
+    obtain ⟨z1, z2⟩ := zat_waiting I hpc h1
+    refine ⟨z1, ?_⟩
+    show ZAt fb _ m (.run .dispatchNext)
+    simp only [ZAt]
+    refine ⟨wakeRt s abs, s.stack, rfl, zd_wake ?_⟩
+    rcases z2 with ⟨a, b, _⟩ | ⟨_, _, _, a⟩
+    · exact Or.inl ⟨a, b⟩
+    · exact Or.inr a
+
+theorem inp_wret {μ : M} {s : St} {c : CSt} {m : TmoSt} (g : Good μ s) (I : Inv fb s c m) (abs : Option TS) (km : Bool)
+    (r : WRes) (hpc : s.pc = .waiting abs km) (ht : (afterWait s abs km r).1.time = s.time)
+    (hfb : fb = true ∨ r ≠ .enosys) :
+    Post fb (afterWait s abs km r).1 c m (Ev.inp (.wret r) :: (afterWait s abs km r).2.map Ev.out) := by
+  have hf := not_owed_waiting I hpc
+  cases r with
+  | eintr =>
+    rw [wake_eq]
+    intro c' hc'
+    rw [List.map_nil, fold1] at hc' ⊢
+    simp only [ctrStep, Except.ok.injEq] at hc'
+    subst hc'
+    exact ⟨m, rfl, I.zle, Or.inr (wake_plain I hpc rfl)⟩
+  | events l =>
+    cases l with
+    | cons x l' =>
+      obtain ⟨ho, hw⟩ := afterWait_events_shape s abs km (x :: l')
+      rw [ho]
+      intro c' hc'
+      rw [List.map_nil, fold1] at hc' ⊢
+      simp only [ctrStep, Except.ok.injEq] at hc'
+      subst hc'
+      refine ⟨{ m with owed := false, zeros := 0 }, rfl, Zb.zero, Or.inr ?_⟩
+      exact Inv.normal hw (by rw [ht]; exact I.clock) rfl rfl
+    | nil =>
+      rw [wake_eq']
+      intro c' hc'
+      rw [List.map_nil, fold1] at hc' ⊢
+      simp only [ctrStep, Except.ok.injEq, List.isEmpty_nil, if_true] at hc'
+      subst hc'
+      obtain ⟨lk1, lk2⟩ := I.link abs km hpc
+      cases hs : m.sleep with
+      | true =>
+        -- the timeout of a sleep ran out: a timer is due at the next clock reading
+        obtain ⟨habs, d, hd, hdue⟩ := lk1 hs
+        refine ⟨{ m with owed := true }, by simp [tmoStepC, tmoStep, hs], I.zle, Or.inr ?_⟩
+        refine ⟨I.clock, I.zle, ?_, ?_, ?_, ?_⟩
+        · intro a k h; simp [wake, waitArgs] at h
+        · intro a k h; simp [wake] at h
+        · intro _
+          show OwedAt _ _ (.run .dispatchNext)
+          simp only [OwedAt]
+          refine ⟨⟨s.stack, ?_⟩, rfl, d, hd, hdue⟩
+          show Frame.poll [] (wakeRt s abs) :: s.stack = _
+          rw [wakeRt_some habs]
+        · intro h; cases h
+      | false =>
+        cases hz : m.zero with
+        | false =>
+          refine ⟨m, by simp [tmoStepC, tmoStep, hs, hz], I.zle, Or.inr (wake_plain I hpc rfl)⟩
+        | true =>
+          -- an empty zero-timeout poll
+          have habs := lk2 hz
+          have hle : m.zeros ≤ 1 ∧ (m.zeros = 1 → s.method ≠ .ppoll ∧ fb = true) := by
+            by_cases h1 : 1 ≤ m.zeros
+            · obtain ⟨_, z2⟩ := zat_waiting I hpc h1
+              rcases z2 with ⟨_, _, hz0⟩ | ⟨hfb', hm, hle, _⟩
+              · rw [hz] at hz0; cases hz0
+              · exact ⟨hle, fun _ => ⟨by rw [hm]; simp, hfb'⟩⟩
+            · exact ⟨by omega, fun h => by omega⟩
+          have hng : ¬ m.zeros ≥ 2 := by omega
+          have hzb : Zb fb (m.zeros + 1) := by
+            refine ⟨by omega, fun hfalse => ?_⟩
+            by_cases h0 : m.zeros = 0
+            · omega
+            · have := (hle.2 (by omega)).2
+              rw [hfalse] at this; cases this
+          refine ⟨{ m with zeros := m.zeros + 1 }, by simp [tmoStepC, tmoStep, hs, hz, hng], hzb, Or.inr ?_⟩
+          refine ⟨I.clock, hzb, ?_, ?_, ?_, ?_⟩
+          · intro a k h; simp [wake, waitArgs] at h
+          · intro a k h; simp [wake] at h
+          · intro h; rw [hf] at h; cases h
+          · intro _ _
+            refine ⟨?_, ?_⟩
+            · by_cases h0 : m.zeros = 0
+              · left; simp [h0]
+              · right; exact (hle.2 (by omega)).1
+            · show ZAt fb _ _ (.run .dispatchNext)
+              simp only [ZAt]
+              exact ⟨wakeRt s abs, s.stack, rfl, zd_wake (Or.inr habs)⟩
+  | enosys =>
+    have hfb : fb = true := hfb.resolve_right (by simp)
+    have hA : ∀ a, abs = some a → a = ⟨0, 0⟩ ∨ ∃ r, onHeap s.heap r ∧ expOf s.heap r = a :=
+      fun a ha => I.absR abs km (by rw [hpc]; rfl) a ha
+    have hctr : ∀ c', ctrStep c (.inp (.wret .enosys)) = .ok c' → c'.last = c.last := by
+      intro c' h
+      simp only [ctrStep, Except.ok.injEq] at h
+      subst h; rfl
+    -- the invariant after a retry with the same arguments
+    have retry : ∀ (s' : St) (c' : CSt) (q : Pc), s'.pc = q → waitArgs q = some (abs, km) →
+        (∀ a k, q ≠ .waiting a k) → s'.time = s.time → s'.heap = s.heap → c'.last = c.last →
+        (1 ≤ m.zeros → (m.zeros ≤ 1 ∨ s'.method ≠ .ppoll) ∧ ZAt fb s' m q) → Inv fb s' c' m := by
+      intro s' c' q hq hqw hnw h1 h2 h3 h4
+      refine ⟨by rw [h3, h1]; exact I.clock, I.zle, ?_, ?_, ?_, ?_⟩
+      · intro abs' km' h a ha
+        rw [hq, hqw] at h
+        cases h
+        rw [h2]; exact hA a ha
+      · intro a k h; rw [hq] at h; exact absurd h (hnw a k)
+      · intro h; rw [hf] at h; cases h
+      · intro _ hz1
+        unfold ZInv
+        rw [hq]
+        exact h4 hz1
+    have fin : ∀ (s' : St) (q : Pc), s'.pc = q → waitArgs q = some (abs, km) →
+        (∀ a k, q ≠ .waiting a k) → s'.time = s.time → s'.heap = s.heap →
+        (1 ≤ m.zeros → (m.zeros ≤ 1 ∨ s'.method ≠ .ppoll) ∧ ZAt fb s' m q) →
+        Post fb s' c m [Ev.inp (.wret .enosys)] := by
+      intro s' q hq hqw hnw h1 h2 h4 c' hc'
+      rw [fold1] at hc' ⊢
+      exact ⟨m, rfl, I.zle, Or.inr (retry s' c' q hq hqw hnw h1 h2 (hctr c' hc') h4)⟩
+    have dead : ∀ (s' : St) (msg : String), s'.pc = .dead →
+        Post fb s' c m (Ev.inp (.wret .enosys) :: [Ev.out (.fatal msg)]) := by
+      intro s' msg hd c' hc'
+      refine ⟨m, rfl, I.zle, Or.inl hd⟩
+    simp only [afterWait, goto, Ivy.L1.fatal]
+    split
+    · -- epoll with timerfd
+      split
+      · refine fin _ _ rfl rfl (by simp) rfl rfl (fun h1 => ?_)
+        obtain ⟨z1, z2⟩ := zat_waiting I hpc h1
+        refine ⟨z1, ?_⟩
+        simp only [ZAt]
+        rcases z2 with ⟨a, b, _⟩ | z2
+        · exact Or.inl ⟨a, b⟩
+        · exact Or.inr z2
+      · exact dead _ _ rfl
+    · split
+      · refine fin _ _ rfl rfl (by simp) rfl rfl (fun h1 => ?_)
+        obtain ⟨z1, z2⟩ := zat_waiting I hpc h1
+        refine ⟨z1, ?_⟩
+        simp only [ZAt]
+        rcases z2 with ⟨a, b, _⟩ | z2
+        · exact Or.inl ⟨a, b⟩
+        · exact Or.inr z2
+      · exact dead _ _ rfl
+    · next hm =>
+      -- ppoll falls back to poll and reads the clock again
+      split
+      · next habs =>
+        refine fin _ _ rfl rfl (by simp) rfl rfl (fun h1 => ?_)
+        obtain ⟨z1, z2⟩ := zat_waiting I hpc h1
+        refine ⟨Or.inr (by simp), ?_⟩
+        simp only [ZAt]
+        refine ⟨hfb, trivial, ?_, habs⟩
+        rcases z1 with z1 | z1
+        · exact z1
+        · exact absurd hm z1
+      · next habs =>
+        refine fin _ _ rfl rfl (by simp) rfl rfl (fun h1 => ?_)
+        obtain ⟨z1, z2⟩ := zat_waiting I hpc h1
+        refine ⟨Or.inr (by simp), ?_⟩
+        simp only [ZAt]
+        rcases z2 with ⟨a, b, _⟩ | ⟨_, _, _, z2⟩
+        · refine Or.inl ⟨a, ?_⟩
+          rcases b with ⟨_, _, hK⟩ | ⟨hk, ⟨ha, hn⟩ | ⟨a', ha, _⟩⟩
+          · rw [hK.1] at hm; cases hm
+          · exact Or.inr ⟨hk, Or.inl ⟨ha, hn⟩⟩
+          · rw [ha] at habs; simp at habs
+        · exact absurd z2 habs
+    · exact dead _ _ rfl
+
+
+/-- a step inside the wait that changes nothing the invariant reads (a foreign thread posts an event) -/
+theorem inv_waiting_same {s s' : St} {c : CSt} {m : TmoSt} (I : Inv fb s c m) {abs : Option TS} {km : Bool}
+    (hpc : s.pc = .waiting abs km) (hS : Same s s') (hT : s'.tasks = s.tasks) : Inv fb s' c m := by
+  have hf := not_owed_waiting I hpc
+  have hpc' : s'.pc = .waiting abs km := by rw [hS.pc]; exact hpc
+  refine ⟨by rw [hS.time]; exact I.clock, I.zle, ?_, ?_, ?_, ?_⟩
+  · intro a k h x hx
+    rw [hS.heap]
+    exact I.absR a k (by rw [← hS.pc]; exact h) x hx
+  · intro a k h
+    rw [hS.heap]
+    exact I.link a k (by rw [← hS.pc]; exact h)
+  · intro h; rw [hf] at h; cases h
+  · intro _ h1
+    obtain ⟨z1, z2⟩ := zat_waiting I hpc h1
+    unfold ZInv
+    rw [hpc', hS.method]
+    refine ⟨z1, ?_⟩
+    simp only [ZAt]
+    rw [hT]
+    rcases z2 with ⟨a, b, d⟩ | z2
+    · exact Or.inl ⟨a, b.same hS, d⟩
+    · exact Or.inr (by rw [hS.method]; exact z2)
+
+theorem input_post {μ : M} {s s' : St} {c : CSt} {m : TmoSt} {outs : List Out} (g : Good μ s) (I : Inv fb s c m)
+    (i : Input) (hin : input s i = some (s', outs)) (ht : (∀ t, i ≠ .time t) → s'.time = s.time)
+    (hfb : fb = true ∨ i ≠ .wret .enosys) :
+    Post fb s' c m (Ev.inp i :: outs.map Ev.out) := by
+  unfold input at hin
+  split at hin
+  · -- api
+    next a hpc =>
+    obtain ⟨rfl, rfl⟩ := some_pair_inj hin
+    obtain ⟨hf, h0⟩ := I.idle hpc (by simp [OwedAt]) (by simp [ZAt])
+    exact Post.idle hf h0 rfl rfl (by rw [ht (by simp)]; exact I.clock) (api_shape s a hpc)
+  · -- handlerEnd
+    next hpc =>
+    obtain ⟨hf, h0⟩ := I.idle hpc (by simp [OwedAt]) (by simp [ZAt])
+    split at hin
+    · cases hin
+    all_goals first
+      | (cases hin; done)
+      | (obtain ⟨rfl, rfl⟩ := some_pair_inj hin
+         exact Post.idle hf h0 rfl rfl I.clock (Shape.nil rfl))
+  · -- free
+    next k id hpc =>
+    obtain ⟨rfl, rfl⟩ := some_pair_inj hin
+    obtain ⟨hf, h0⟩ := I.idle hpc (by simp [OwedAt]) (by simp [ZAt])
+    have hS := same_freeObj s k id
+    exact Post.idle hf h0 rfl rfl (by rw [hS.time]; exact I.clock) (Shape.nil (by rw [hS.pc, hpc]; rfl))
+  · -- init
+    next k id hpc =>
+    obtain ⟨rfl, rfl⟩ := some_pair_inj hin
+    obtain ⟨hf, h0⟩ := I.idle hpc (by simp [OwedAt]) (by simp [ZAt])
+    have hS := same_initObj s k id
+    exact Post.idle hf h0 rfl rfl (by rw [hS.time]; exact I.clock) (Shape.nil (by rw [hS.pc, hpc]; rfl))
+  · -- time
+    next k t hpc =>
+    obtain ⟨rfl, rfl⟩ := some_pair_inj hin
+    exact inp_time g I k t hpc
+  · -- wret
+    next abs km r hpc =>
+    obtain ⟨rfl, rfl⟩ := some_pair_inj hin
+    exact inp_wret g I abs km r hpc (ht (by simp)) (hfb.imp id (fun h hr => h (by rw [hr])))
+  · -- xpost
+    next abs km e hpc =>
+    have fin : ∀ s1 : St, Same s s1 → s1.tasks = s.tasks → Post fb s1 c m [Ev.inp (.xpost e)] := by
+      intro s1 hS hT c' hc'
+      rw [fold1] at hc' ⊢
+      cases hc'
+      exact ⟨m, rfl, I.zle, Or.inr (inv_waiting_same I hpc hS hT)⟩
+    split at hin
+    · obtain ⟨rfl, rfl⟩ := some_pair_inj hin
+      exact fin _ (Same.refl _) rfl
+    · cases hin
+      refine fin _ ?_ ?_
+      · simp only []
+        split <;> same_rfl
+      · simp only []
+        split <;> rfl
+  · -- rawRead
+    next r okk hpc =>
+    obtain ⟨hf, h0⟩ := I.idle hpc (by simp [OwedAt]) (by simp [ZAt])
+    split at hin
+    · obtain ⟨rfl, rfl⟩ := some_pair_inj hin
+      exact Post.idle hf h0 rfl rfl I.clock (Shape.nil rfl)
+    · split at hin
+      · obtain ⟨rfl, rfl⟩ := some_pair_inj hin
+        exact Post.idle hf h0 rfl rfl I.clock (Shape.nil rfl)
+      · split at hin
+        · obtain ⟨rfl, rfl⟩ := some_pair_inj hin
+          exact Post.idle hf h0 rfl rfl I.clock (Shape.dead _ rfl rfl)
+        · obtain ⟨rfl, rfl⟩ := some_pair_inj hin
+          exact Post.idle hf h0 rfl rfl I.clock (Shape.cb _ rfl)
+  · cases hin
+
+/-! ## the trace theorem -/
+
+theorem ctr_append {l1 l2 : List Ev} {c c' : CSt} (h : (l1 ++ l2).foldlM ctrStep c = .ok c') :
+    ∃ c1, l1.foldlM ctrStep c = .ok c1 ∧ l2.foldlM ctrStep c1 = .ok c' := by
+  rw [List.foldlM_append] at h
+  cases h1 : l1.foldlM ctrStep c with
+  | error x => rw [h1] at h; cases h
+  | ok c1 => rw [h1] at h; exact ⟨c1, rfl, h⟩
+
+theorem tmo_append {l1 l2 : List Ev} {m m1 m2 : TmoSt} (h1 : l1.foldlM tmoStepC m = .ok m1)
+    (h2 : l2.foldlM tmoStepC m1 = .ok m2) : (l1 ++ l2).foldlM tmoStepC m = .ok m2 := by
+  rw [List.foldlM_append, h1]; exact h2
+
+theorem dead_exec {s s' : St} {evs : List Ev} (h : Exec s evs s') (hd : s.pc = .dead) : evs = [] := by
+  cases h with
+  | nil => rfl
+  | internal hpc _ _ => rw [hd] at hpc; cases hpc
+  | input _ hi _ => simp [input, hd] at hi
+
+/-- the oracle accepts every continuation from a state related to it, as long as the environment keeps the
+timeout contract -/
+theorem tmo_run {s s' : St} {evs : List Ev} (h : Exec s evs s') :
+    ∀ (c c' : CSt) (m : TmoSt), m.zeros ≤ 2 → (s.pc = .dead ∨ ∃ μ, Good μ s ∧ Inv fb s c m) →
+      evs.foldlM ctrStep c = .ok c' →
+      ∃ m', evs.foldlM tmoStepC m = .ok m' ∧ m'.zeros ≤ 2 := by
+  induction h with
+  | nil s => intro c c' m hz _ _; exact ⟨m, rfl, hz⟩
+  | @internal s s1 s2 b outs evs hpc hi hrest ih =>
+    intro c c' m hz hI hc
+    rcases hI with hd | ⟨μ, g, I⟩
+    · rw [hd] at hpc; cases hpc
+    obtain ⟨c1, hc1, hc2⟩ := ctr_append hc
+    have hp := internal_post g I b hpc
+    rw [hi] at hp
+    obtain ⟨m1, hm1, hz1, hI1⟩ := hp c1 hc1
+    have hI1' : s1.pc = .dead ∨ ∃ μ, Good μ s1 ∧ Inv fb s1 c1 m1 := by
+      rcases hI1 with hd | I1
+      · exact Or.inl hd
+      · have := good_internal g b hpc
+        rw [hi] at this
+        rcases this with hd | ⟨μ1, g1, _⟩
+        · exact Or.inl hd
+        · exact Or.inr ⟨μ1, g1, I1⟩
+    obtain ⟨m2, hm2, hz2⟩ := ih c1 c' m1 hz1 hI1' hc2
+    exact ⟨m2, tmo_append hm1 hm2, hz2⟩
+  | @input s s1 s2 i outs evs henv hi hrest ih =>
+    intro c c' m hz hI hc
+    rcases hI with hd | ⟨μ, g, I⟩
+    · simp [input, hd] at hi
+    have hc' : ((Ev.inp i :: outs.map Ev.out) ++ evs).foldlM ctrStep c = .ok c' := by simpa using hc
+    obtain ⟨c1, hc1, hc2⟩ := ctr_append hc'
+    rcases good_input g henv hi with hd | ⟨μ1, g1, ht⟩
+    · -- the machine died: nothing follows
+      have := dead_exec hrest hd.1
+      subst this
+      have hp := input_post g I i hi (fun _ => hd.2)
+      obtain ⟨m1, hm1, hz1, _⟩ := hp c1 hc1
+      exact ⟨m1, by simpa using hm1, hz1⟩
+    · have hp := input_post g I i hi ht
+      obtain ⟨m1, hm1, hz1, hI1⟩ := hp c1 hc1
+      have hI1' : s1.pc = .dead ∨ ∃ μ, Good μ s1 ∧ Inv fb s1 c1 m1 := by
+        rcases hI1 with hd | I1
+        · exact Or.inl hd
+        · exact Or.inr ⟨μ1, g1, I1⟩
+      obtain ⟨m2, hm2, hz2⟩ := ih c1 c' m1 hz1 hI1' hc2
+      refine ⟨m2, ?_, hz2⟩
+      have := tmo_append hm1 hm2
+      simpa using this
+
+
+theorem contract_ok {evs : List Ev} (hc : tmoContract evs = true) : ∃ c', evs.foldlM ctrStep {} = .ok c' := by
+  unfold tmoContract monOk runMon at hc
+  cases h : evs.foldlM ctrStep {} with
+  | ok c' => exact ⟨c', rfl⟩
+  | error x => rw [h] at hc; cases hc
+
+/-- from an initial state: the corrected oracle accepts, and its counter of consecutive empty zero-timeout polls
+never exceeds 2 -/
+theorem tmo_cap_bound (mt : Method) (ntimers : Nat) (timerfdAvail pwait2 : Bool) (evs : List Ev) (s' : St)
+    (h : Exec (St.init mt ntimers timerfdAvail pwait2) evs s') (hc : tmoContract evs = true) :
+    ∃ m', runMon tmoStepC {} evs = .ok m' ∧ m'.zeros ≤ 2 := by
+  obtain ⟨c', hc'⟩ := contract_ok hc
+  exact tmo_run h {} c' {} (by decide)
+    (Or.inr ⟨{}, good_init mt ntimers timerfdAvail pwait2, inv_init mt ntimers timerfdAvail pwait2⟩) hc'
+
+theorem tmo_cap_accepts (mt : Method) (ntimers : Nat) (timerfdAvail pwait2 : Bool) (evs : List Ev) (s' : St)
+    (h : Exec (St.init mt ntimers timerfdAvail pwait2) evs s') (hc : tmoContract evs = true) :
+    tmoCapVerdict evs = none := by
+  obtain ⟨m', hm, _⟩ := tmo_cap_bound mt ntimers timerfdAvail pwait2 evs s' h hc
+  unfold tmoCapVerdict
+  rw [hm]
+
+/-- the oracle as it stands, on traces without a millisecond wait at the 24 h cap -/
+theorem tmo_bound (mt : Method) (ntimers : Nat) (timerfdAvail pwait2 : Bool) (evs : List Ev) (s' : St)
+    (h : Exec (St.init mt ntimers timerfdAvail pwait2) evs s') (hc : tmoContract evs = true)
+    (hcap : noDayCap evs = true) : ∃ m', runMon tmoStep {} evs = .ok m' ∧ m'.zeros ≤ 2 := by
+  obtain ⟨m', hm, hz⟩ := tmo_cap_bound mt ntimers timerfdAvail pwait2 evs s' h hc
+  refine ⟨m', ?_, hz⟩
+  unfold runMon at hm ⊢
+  rw [← tmoFold_eq evs {} hcap]
+  exact hm
+
+theorem tmo_accepts (mt : Method) (ntimers : Nat) (timerfdAvail pwait2 : Bool) (evs : List Ev) (s' : St)
+    (h : Exec (St.init mt ntimers timerfdAvail pwait2) evs s') (hc : tmoContract evs = true)
+    (hcap : noDayCap evs = true) : tmoVerdict evs = none := by
+  obtain ⟨m', hm, _⟩ := tmo_bound mt ntimers timerfdAvail pwait2 evs s' h hc hcap
+  unfold tmoVerdict
+  rw [hm]
 
 end Ivy.L1.ProofsC07tmo
